@@ -59,6 +59,17 @@ func runC04(c *Ctx) {
 	R.Rule("C04.R4", "every URL-valued attribute allowed by UGCPolicy (href, cite, src) sits at one of the URL-checked positions of C03, and attributes without a value pattern are exactly those URL attributes")
 	R.Rule("C04.R6", "value patterns do not reject conforming values: every pattern UGCPolicy registers for an attribute (globally or on an element) accepts the conforming example values of spec/ugc_vocabulary.json for that attribute (exact DFA membership under MatchString semantics)")
 	R.Rule("C04.R5", "defaults: NewPolicy's skip-content set contains script, style, iframe, object, title, noscript, noembed, noframes, frameset, nostyle")
+	R.Rule("C04.R9", "the URL positions of the shipped vocabulary are checked positions (= C03.R1/R2/R5, cited): for every (element, attribute) URL position, sanitizeAttrs specialised to the element keeps an attribute with that key only across validURL's true result and with validURL's (or the rewriter's) value — so what UGCPolicy lets through at a.href, q.cite, img.src … carries only the schemes it allows")
+	{
+		var uspec urlSpec
+		if err := c.Spec("url_positions.json", &uspec); err != nil {
+			R.Unknown("C04.R9", "spec", "spec/url_positions.json", "", err.Error())
+		} else {
+			R.Cite(map[string]string{"C03.R1": "C04.R9", "C03.R2": "C04.R9", "C03.R5": "C04.R9"}, func() {
+				c03Positions(c, model.FindFields(c.P), &uspec)
+			})
+		}
+	}
 	R.Rule("C04.R8", "documents of any size pass: the tokenizer runs in its default configuration (no SetMaxBuf / AllowCDATA / raw-text switches), so no token of a conforming document makes the sanitiser fail or change mode")
 	if sc4 := newSC(c, "C04.R8"); sc4 != nil {
 		c06TokenizerConfig(sc4, "C04.R8", "the tokenizer is reconfigured or handed on: a conforming document with a long token (or the construct the switch concerns) is no longer returned unchanged")
